@@ -28,6 +28,23 @@ def cases(ctx):
     rng = ctx.rng
     for i in range(700 if not thorough else 8000):
         s = gen.counter_dfa(rng) if i % 7 == 3 else gen.random_dfa(rng, 7)
+        if i % 20 == 6 and len(s['Q']) <= 7:      # state names that look like class names (legal str names)
+            pool = rng.choice([['q1', 'q2', '{q1,q2}', '{q1}', 'q3', '{q3}', 'q4'], ['a', 'b', 'a,b', 'c', '{a}', 'd', 'e']])
+            m = dict(zip(s['Q'], pool))
+            s = {'Q': [m[q] for q in s['Q']], 'Sigma': s['Sigma'], 'delta': [[m[p], a, m[q]] for p, a, q in s['delta']], 'q0': m[s['q0']],
+                 'F': [m[q] for q in s['F']]}
+        if i % 20 == 13:     # two equivalent states q1, q2 (one a copy of the other) next to a state literally named '{q1,q2}'
+            b = gen.random_dfa(rng, 4)
+            ren = dict(zip(b['Q'], ['q1', '{q1,q2}', 'q3', '{q3}']))
+            f = lambda q: ren[q]
+            s = {'Q': [f(q) for q in b['Q']] + ['q2'], 'Sigma': b['Sigma'], 'q0': f(b['q0']), 'F': [f(q) for q in b['F']],
+                 'delta': [[f(p), a, f(q)] for p, a, q in b['delta']]}
+            s['delta'] += [['q2', a, t] for p, a, t in s['delta'] if p == 'q1']
+            if 'q1' in s['F']:
+                s['F'].append('q2')
+            for e in s['delta']:
+                if e[2] == 'q1' and rng.random() < 0.5:
+                    e[2] = 'q2'
         if not thorough or ctx.mine(i):
             yield {'D': s, 'sched': [rng.randint(0, 7) for _ in range(10)]}
 
@@ -42,6 +59,28 @@ def judge(ctx, c, answers):
     n_all, _ = oracles.nerode_classes(D)
     n_reach, _ = oracles.nerode_classes(D, oracles.reachable(D))
     res = []
+    # the documented naming scheme (classes named by sorted set notation) may itself merge two classes when names contain ',' or
+    # are empty: decided with the reference partition, attributed to the recorded finding (same root cause as in C03)
+    _, cls = oracles.nerode_classes(D)
+    blocks = {}
+    for q, k in cls.items():
+        blocks.setdefault(k, set()).add(q)
+    nm = {}
+    collide = False
+    for B in blocks.values():
+        t = '{' + ','.join(sorted(B)) + '}'
+        if t in nm and nm[t] != B:
+            collide = True
+        nm[t] = B
+    if collide:
+        ctx.count('class-name-collision')
+        for (op, f), la in zip(ROUTINES, answers):
+            got = call(f, D, limit=20)
+            ok = 'ok' in got and oracles.dfa_valid(got['ok']) and oracles.distinguish(D, got['ok'], D.Sigma) is None
+            if not ok:
+                ctx.violation(op + '-class-name-collision', {'case': c, 'impl': str(got)[:300]}, finding_key='minimize-class-name-collision')
+        ctx.case(c, False)
+        return
     for (op, f), la in zip(ROUTINES, answers):
         got = call(f, D, limit=20)
         if 'ok' not in got:
